@@ -328,6 +328,38 @@ def search_session(res):
         keep.append(b)
 
 
+def session_permuted(res):
+    """always run: several unique=True computations in ONE process whose coupling operators have the
+    same dimension and the same numbers of classes but a different arrangement of the classes
+    (diag(0,1,2), diag(0,2,1), diag(1,0,2); Tempo and PT-TEMPO) -- each against unique=False"""
+    import oqupy
+    corr = oqupy.PowerLawSD(alpha=0.3, zeta=1.0, cutoff=3.0, cutoff_type="exponential", temperature=0.5)
+    h = np.array([[0.3, 0.4 - 0.2j, 0.1], [0.4 + 0.2j, -0.1, 0.5j], [0.1, -0.5j, -0.2]])
+    system = oqupy.System(h)
+    rho0 = np.full((3, 3), 1.0 / 3, dtype=complex)
+    par = oqupy.TempoParameters(dt=0.1, dkmax=3, epsrel=1e-9)
+    for eig in ([0.0, 1.0, 2.0], [0.0, 2.0, 1.0], [1.0, 0.0, 2.0]):
+        out = {}
+        for unique in (True, False):
+            bath = oqupy.Bath(np.diag(eig).astype(complex), corr)
+            t = oqupy.Tempo(system, bath, par, rho0, 0.0, unique=unique)
+            out["tempo", unique] = np.array(t.compute(end_time=0.5, progress_type="silent").states)
+            pt = oqupy.pt_tempo_compute(bath=bath, start_time=0.0, end_time=0.5, parameters=par,
+                                        unique=unique, progress_type="silent")
+            out["pt", unique] = np.array(oqupy.compute_dynamics(system, initial_state=rho0, process_tensor=pt,
+                                                                start_time=0.0, progress_type="silent").states)
+        for api in ("tempo", "pt"):
+            err = float(np.abs(out[api, True] - out[api, False]).max())
+            res.case("session:%s:%r" % (api, eig), True, {"difference": err})
+            res.count("session-permuted:%s" % api)
+            if err > 1e-6:
+                res.fail("unique-differs:%s:coupling diag%r used after operators with the same class counts"
+                         % (api, tuple(eig)),
+                         {"api": api, "sequence": "unique=True runs with diag(0,1,2), diag(0,2,1), diag(1,0,2) "
+                          "in one process", "coupling_eigenvalues": eig, "difference": err})
+                return
+
+
 def run(tier, seed, replay):
     res = fw.Result(PID, tier, seed, level="proof")
     rng = random.Random(seed)
@@ -347,4 +379,5 @@ def run(tier, seed, replay):
         correspondence(res, tier, rng)
     except fw.Infra as e:
         res.oblige("correspondence run", False, str(e))
+    session_permuted(res)
     return fw.finish(res, lambda r: (search(r), search_mft(r), search_session(r)))
